@@ -1,8 +1,13 @@
 //! Deterministic single-threaded executor over the virtual clock.
 //!
-//! Every task has its own waker flag. The loop polls one *ready* task chosen by the
-//! [`Sched`] policy (a generated input), and when nothing is ready it jumps the clock to the
-//! earliest alarm (embassy timers or a registered [`TimeSource`], e.g. delayed datagrams).
+//! All tasks share ONE waker. rs-matter's `Signal`/`Notification`/`IfMutex` hold a single
+//! `WakerRegistration`; embassy's `WakerRegistration::register` wakes the waker it evicts, so
+//! two waiters with *different* wakers ping-pong forever (a busy loop that a wall-clock executor
+//! survives but that would freeze a virtual clock). With one shared waker the stacks behave as
+//! in the repository's own tests, where all futures of a node are arms of one `select`.
+//! When the waker fires, every live task is polled once, in an order chosen by the [`Sched`]
+//! policy (a generated input); when nothing is woken the clock jumps to the earliest alarm
+//! (embassy timers or a registered [`TimeSource`], e.g. delayed datagrams).
 
 use std::future::Future;
 use std::pin::Pin;
@@ -90,8 +95,6 @@ impl Wake for Flag {
 struct Task<'a> {
     name: String,
     fut: Option<Pin<Box<dyn Future<Output = ()> + 'a>>>,
-    flag: Arc<Flag>,
-    waker: Waker,
     polls: u64,
 }
 
@@ -117,6 +120,8 @@ pub type TaskId = usize;
 
 pub struct Exec<'a> {
     tasks: Vec<Task<'a>>,
+    flag: Arc<Flag>,
+    waker: Waker,
     chooser: Chooser,
     sources: Vec<&'a dyn TimeSource>,
     pub polls: u64,
@@ -126,8 +131,12 @@ pub struct Exec<'a> {
 
 impl<'a> Exec<'a> {
     pub fn new(sched: Sched) -> Self {
+        let flag = Arc::new(Flag(AtomicBool::new(true)));
+        let waker = Waker::from(flag.clone());
         Self {
             tasks: Vec::new(),
+            flag,
+            waker,
             chooser: Chooser::new(sched),
             sources: Vec::new(),
             polls: 0,
@@ -140,13 +149,10 @@ impl<'a> Exec<'a> {
     }
 
     pub fn spawn<F: Future<Output = ()> + 'a>(&mut self, name: &str, fut: F) -> TaskId {
-        let flag = Arc::new(Flag(AtomicBool::new(true)));
-        let waker = Waker::from(flag.clone());
+        self.flag.0.store(true, Ordering::SeqCst);
         self.tasks.push(Task {
             name: name.to_string(),
             fut: Some(Box::pin(fut)),
-            flag,
-            waker,
             polls: 0,
         });
         self.tasks.len() - 1
@@ -184,19 +190,13 @@ impl<'a> Exec<'a> {
     /// progress any more, or the poll watchdog fires.
     pub fn run_until<G: FnMut() -> bool>(&mut self, deadline: u64, mut goal: G) -> Stop {
         let mut budget = self.max_polls;
-        let mut ready: Vec<usize> = Vec::new();
+        let mut order: Vec<usize> = Vec::new();
         loop {
             if goal() {
                 return Stop::Goal;
             }
             self.fire_sources();
-            ready.clear();
-            for (i, t) in self.tasks.iter().enumerate() {
-                if t.fut.is_some() && t.flag.0.load(Ordering::SeqCst) {
-                    ready.push(i);
-                }
-            }
-            if ready.is_empty() {
+            if !self.flag.0.swap(false, Ordering::SeqCst) {
                 let next = match (clock::next_alarm(), self.next_source_due()) {
                     (Some(a), Some(b)) => Some(a.min(b)),
                     (a, b) => a.or(b),
@@ -216,23 +216,44 @@ impl<'a> Exec<'a> {
             if clock::now() > deadline {
                 return Stop::Deadline;
             }
-            if budget == 0 {
-                return Stop::PollLimit;
+            // One round: poll every live task once, in a generated order.
+            order.clear();
+            order.extend(
+                self.tasks
+                    .iter()
+                    .enumerate()
+                    .filter(|(_, t)| t.fut.is_some())
+                    .map(|(i, _)| i),
+            );
+            if order.is_empty() {
+                // nothing to run; only time sources may still act
+                continue;
             }
-            budget -= 1;
-            let idx = ready[self.chooser.pick(ready.len())];
-            let task = &mut self.tasks[idx];
-            task.flag.0.store(false, Ordering::SeqCst);
-            task.polls += 1;
-            self.polls += 1;
-            let waker = task.waker.clone();
-            let mut cx = Context::from_waker(&waker);
-            let done = match task.fut.as_mut() {
-                Some(f) => matches!(f.as_mut().poll(&mut cx), Poll::Ready(())),
-                None => false,
-            };
-            if done {
-                self.tasks[idx].fut = None;
+            // Fisher-Yates with the chooser
+            for i in (1..order.len()).rev() {
+                let j = self.chooser.pick(i + 1);
+                order.swap(i, j);
+            }
+            for &idx in &order {
+                if budget == 0 {
+                    return Stop::PollLimit;
+                }
+                budget -= 1;
+                let waker = self.waker.clone();
+                let mut cx = Context::from_waker(&waker);
+                let task = &mut self.tasks[idx];
+                task.polls += 1;
+                self.polls += 1;
+                let done = match task.fut.as_mut() {
+                    Some(f) => matches!(f.as_mut().poll(&mut cx), Poll::Ready(())),
+                    None => false,
+                };
+                if done {
+                    self.tasks[idx].fut = None;
+                }
+                if goal() {
+                    return Stop::Goal;
+                }
             }
         }
     }
